@@ -4,7 +4,7 @@ import RichModel.Drv.Proto
 Driver handlers for property C15 (record / capture / export).
 
 Request:  c15_hist <TAB> variant <TAB> config <TAB> styles <TAB> ops <TAB> what
-  variant : 3 bits  recordInRender mergeCtl escapeHref
+  variant : 4 bits  recordInRender mergeCtl escapeHref captureMarks
   config  : 6 bits  record colorNone isTerminal termDumb noColor legacyWindows
   styles  : n!entry!entry…    entry = truthy~pre~post~preT~postT~withoutColorId~htmlRule~link
             (link: "-" = None, "=<str>" otherwise); style ids are 1-based positions
@@ -70,7 +70,7 @@ def envOf (rows : Array StyleRow) : StyleEnv Nat :=
 def bit (s : String) (i : Nat) : Bool := (s.toList.getD i '0') == '1'
 
 def decVariant (s : String) : Variant :=
-  { recordInRender := bit s 0, mergeCtl := bit s 1, escapeHref := bit s 2 }
+  { recordInRender := bit s 0, mergeCtl := bit s 1, escapeHref := bit s 2, captureMarks := bit s 3 }
 
 def decConfig (s : String) : Config :=
   { record := bit s 0, colorNone := bit s 1, isTerminal := bit s 2, termDumb := bit s 3,
